@@ -68,6 +68,7 @@ type ClientReq struct {
 	App       http.Header
 	Timeout   string // raw header value in the form's timeout header ("" = none)
 	HTTP2     bool
+	ForceHTTP1 bool
 	DeclLen   bool // declare Content-Length
 	BareCT    bool // gRPC: "application/grpc" without +proto
 	CTSuffix  string
@@ -253,7 +254,7 @@ func (c *ClientReq) Build(r *rand.Rand) (*BuiltReq, error) {
 		return nil, err
 	}
 	req.Header = hdr
-	if c.HTTP2 || c.Form == FGRPC {
+	if (c.HTTP2 || c.Form == FGRPC) && !c.ForceHTTP1 {
 		req.Proto, req.ProtoMajor, req.ProtoMinor = "HTTP/2.0", 2, 0
 	}
 	req.ContentLength = -1
